@@ -20,6 +20,24 @@ CHECKS = {
         "trusted: mc/ref/draft6.py (cross-checked against jsonschema 4.26 on every explored pair); alphabets and depth bounds as stated in the evidence",
         "explicit-state enumeration of a bounded schema lattice x value alphabet on the real code, reference-model oracle",
     ),
+    "C04": (
+        "E1-lattice",
+        "Every accepted (schema, value) pair of the same bounded lattice as C01 is executed on the real code and the returned model is compared with the input by a structural embedding oracle (members under Python/JSON names, scalar identity up to int->float under number, array length/order, extras only defaults or the not-passed marker).",
+        "trusted: mc/ref/embed.py; branch-agnostic for untyped nested results (weaker than the statement there); alphabets/bounds as for C01",
+        "explicit-state enumeration of the schema lattice x value alphabet, structural embedding oracle on every accepted pair",
+    ),
+    "C08": (
+        "E2-history",
+        "For every DSL-built tree of the element family and every parsed lattice schema (depth<=2 + wrappers + object core), all validate(v) transitions over the value alphabet are executed; each successor state (full canonical snapshot incl. private attributes, aliasing and registries) must equal its predecessor, so each tree's reachable set is one state; inputs unchanged; serializations unchanged; repetition round and depth-2 pair histories compared with a pristine tree.",
+        "trusted: mc/impl.snapshot completeness (hedged by the depth-2 differential); value alphabets as stated",
+        "explicit-state exploration of call histories with full-snapshot state comparison (all transitions must be self-loops)",
+    ),
+    "C10": (
+        "E1-lattice",
+        "Outcome classes of every call/parse over the ordinary lattice (depth<=2 + wrappers) and over the product of an extreme-schema family x an extreme-value alphabet (huge/tiny/infinite numbers, long digit strings, surrogates, nesting depth 100, unhashable mixes, dunder member names), each under a call-event budget and under natural and reversed validator iteration order, plus corner-schema parses.",
+        "trusted: the call-event budget as a stand-in for termination; catastrophic-backtracking patterns excluded (stated in DESIGN.md)",
+        "exhaustive enumeration of a bounded extreme schema x value product on the real code, outcome-class invariant",
+    ),
 }
 
 PENDING_REASON = "check not built yet in this session (planned in DESIGN.md section 4); no claim is made until its machinery exists"
